@@ -1,5 +1,6 @@
 SPECIFICATION SpecL
 CONSTANTS MaxQ = 255
+  OtherBlowups <- SomeBlowups  OtherGrindings <- FewGrindings
   Blowups <- AllBlowups  Exts <- AllExts  Grindings <- SomeGrindings  FieldBits <- AllFieldBits  CRs <- AllCRs
 INVARIANT EmitL
 CHECK_DEADLOCK FALSE
